@@ -1157,7 +1157,7 @@ def elementwise(repo, fi: FunctionInfo, e: ast.AST, at: ast.AST, sources: Option
         if t not in sources:
             sources.append(t)
         return sources, _E(sources.index(t))
-    if isinstance(e, ast.Call) and not e.keywords and ast.unparse(e.func) not in ("enumerate", "sorted", "reversed", "filter", "range", "set", "frozenset", "dict", "iter") and all(isinstance(a, (ast.Name, ast.Attribute, ast.Constant)) for a in e.args):
+    if isinstance(e, ast.Call) and not e.keywords and ast.unparse(e.func) not in ("enumerate", "sorted", "reversed", "filter", "set", "frozenset", "dict", "iter") and all(isinstance(a, (ast.Name, ast.Attribute, ast.Constant)) for a in e.args):
         # an iterable produced by a call (a generator function of the package): opaque, one element per item
         t = xt(e)
         if t not in sources:
